@@ -219,6 +219,9 @@ def generate(prop, rng, tier):
     else:
         plan['niter'] = rng.randint(1, 8)
         plan['ops'] = []
+        # the recorder alone, or combined with odl's own callback objects
+        plan['cbkind'] = rng.choice(['plain', 'plain', 'and_store',
+                                     'store_and'])
         if solver in ('kaczmarz',):
             cfg['random'] = rng.random() < 0.5
     return plan
@@ -556,10 +559,28 @@ def _callbacks(plan, inst, ctx):
     rec = Recorder()
     rec.space = st['x'].space
     fired = {}
+    cb, stored = rec, None
+    kind = plan.get('cbkind', 'plain')
+    if kind != 'plain':
+        S_ = SI.odl().solvers
+        stored = []
+        store = S_.CallbackStore(results=stored)
+        cb = (S_.CallbackApply(rec) & store) if kind == 'and_store' else \
+            (store & S_.CallbackApply(rec))
+        ctx.fired('callback-composite')
     with seams.allocator(garbage, salt=3, fired=fired):
         with seams.schedule(record=[]) as sch:
-            _solver_call(prop, inst, inst.run, st, N, rec, 'callbacks')
+            _solver_call(prop, inst, inst.run, st, N, cb, 'callbacks')
             drawn = list(sch.drawn)
+    if stored is not None:
+        if len(stored) != rec.count or any(
+                elem_flat(a).tobytes() != b.tobytes()
+                for a, b in zip(stored, rec.iters)):
+            raise Violation(prop, 'C11/callback-composite/{}'.format(name),
+                            '{}: CallbackStore combined with another '
+                            'callback stored {} iterates, the other callback '
+                            'saw {} (or other values)'.format(
+                                name, len(stored), rec.count))
     for k, v in fired.items():
         ctx.fired('alloc-' + k, v)
     if drawn:
